@@ -202,6 +202,9 @@ func UninstallHooks() {
 func (w *World) onFatal(msg string) {
 	node := w.S.NodeOfCaller()
 	msg = strings.TrimSpace(msg)
+	if i := strings.Index(msg, "] "); i >= 0 {
+		msg = msg[i+2:] // klog's header carries the process id: not part of a replayable event log
+	}
 	w.Fatals = append(w.Fatals, fmt.Sprintf("node %d: %s", node, msg))
 	w.S.Note("klog.Fatal on node %d: %s", node, msg)
 	w.S.CrashNode(node)
